@@ -100,6 +100,11 @@ package metadata
 //@   ensures [bool-false C14] RegisteredBool(entry) ==> has(m.valuesBool, entry) && !m.valuesBool[entry]
 //@   ensures [int-zero C14] !RegisteredBool(entry) && RegisteredInt(entry) && TargetIntValues[entry].InitZero ==> has(m.valuesInt, entry) && m.valuesInt[entry] == 0
 //@   ensures [int-absent C14] !RegisteredBool(entry) && RegisteredInt(entry) && !TargetIntValues[entry].InitZero ==> !has(m.valuesInt, entry)
+//@   ensures [str-default C14] !RegisteredBool(entry) && !RegisteredInt(entry) && RegisteredStr(entry) && TargetStrValues[entry].ResetAction == DefaultValue
+//@     ==> has(m.valuesStr, entry) && m.valuesStr[entry] == ""
+//@   ensures [str-absent C14] !RegisteredBool(entry) && !RegisteredInt(entry) && RegisteredStr(entry) && TargetStrValues[entry].ResetAction == Delete ==> !has(m.valuesStr, entry)
+//@   ensures [str-kept C14] !RegisteredBool(entry) && !RegisteredInt(entry) && RegisteredStr(entry) && TargetStrValues[entry].ResetAction != DefaultValue && TargetStrValues[entry].ResetAction != Delete
+//@     ==> (has(m.valuesStr, entry) <==> old(has(m.valuesStr, entry))) && m.valuesStr[entry] == old(m.valuesStr[entry])
 
 // Clear resets every registered entry.
 //@ func (*Metadata).Clear
